@@ -885,7 +885,23 @@ func (c *panicCtx) dischargePlusDays(key string, f *ssa.Function, pn *ssa.Panic)
 	seen := map[string]int{}
 	for _, site := range c.callSitesOf(f) {
 		n++
-		caller := closureSuffix.ReplaceAllString(fnName(originFn(site.Parent())), "")
+		// a step inside a transparent helper is a step of the function that calls the helper
+		owner := site.Parent()
+		for hops := 0; hops < 3; hops++ {
+			top := owner
+			for top.Parent() != nil {
+				top = top.Parent()
+			}
+			if !isHelper(top) {
+				break
+			}
+			hs := ht.sites[originFn(top)]
+			if len(hs) == 0 {
+				break
+			}
+			owner = hs[0].Parent()
+		}
+		caller := closureSuffix.ReplaceAllString(fnName(originFn(owner)), "")
 		seen[caller]++
 		k := fmt.Sprintf("PlusDays:%s", caller)
 		if seen[caller] > 1 {
